@@ -150,6 +150,13 @@ def hShuffleDecide (j : Json) : R Json := do
   return Json.mkObj [("thr", valJ r.thr), ("pass", .bool r.pass), ("p", ratJ r.p),
     ("lo", natJ lo), ("hi", natJ hi), ("slo", optJ ratJ (sorted[lo]?)), ("shi", optJ ratJ (sorted[hi]?))]
 
+/-- op `sel_of_coef`: LASSO selection from a coefficient vector, and the LassoLarsIC/Lasso branch -/
+def hSelOfCoef (j : Json) : R Json := do
+  let coef ← jList jRat (← jField j "coef")
+  let rows ← jNat (← jField j "rows")
+  let ncols ← jNat (← jField j "ncols")
+  return Json.mkObj [("sel", listJ natJ (selOfCoef coef)), ("lars", .bool (lassoUsesLarsIC rows ncols))]
+
 /-- op `lag_index`: the time index and variable of every entry of X_lagged / target (coded check) -/
 def hLagCols (j : Json) : R Json := do
   let s ← jMat jRat (← jField j "series")
